@@ -8,9 +8,10 @@ THEOREMS = ['DSet.add_err', 'DSet.sub_err', 'DSet.mul_err_rel', 'DSet.div_err_re
             'DSet.chain_wf_nonneg', 'DSet.c08_pinned_refuted']
 BUDGET = {'quick': 1200, 'thorough': 15000}
 TIME_LIMIT = {'quick': 50, 'thorough': 800}
-RULE = ('chains of 1-8 commands over 2-4 dataset variables: + - * / with a dataset, an ndarray of the same (or an '
-        'incompatible) shape, an int or a float (negative and zero included), copy followed by in-place writes into '
-        'the arrays and bins of the copy, squeeze; shapes from 0-d to 3-d, bins as edges or centres, sometimes '
+RULE = ('chains of 1-8 commands over 2-4 dataset variables: + - * / with a dataset, an ndarray of the same shape, of an '
+        'incompatible shape or of a shape that broadcasts the dataset to a larger one, an int or a float (negative and zero included), copy followed by in-place writes into '
+        'the arrays and bins of the copy, squeeze; 15% of the cases on masked datasets, with mask() applied again to '
+        'masked datasets and to results along the chain; shapes from 0-d to 3-d, bins as edges or centres, sometimes '
         'different names or values; non-trivial = at least one dataset-dataset operation or a negative factor or a '
         'poked copy; distinct = case hash')
 CORRESPONDS = 'Model/Dataset.lean (opDS, opScalar, opArray, consistency, squeeze, runCmds) vs Dataset.__add__/__sub__/__mul__/__truediv__/copy/squeeze'
